@@ -517,7 +517,8 @@ func c10Concurrent(tier string) []fw.Scenario {
 	threadC := [][]sop{nil}
 	if thorough {
 		bound = 3
-		threadC = [][]sop{nil, {{"S", 1}}, {{"U", 0}}, {{"N", 5}}}
+		nrec = 3 // the third thread subscribes an observer of its own (one recorder is never subscribed twice)
+		threadC = [][]sop{nil, {{"S", 2}}, {{"U", 0}}, {{"N", 5}}}
 	}
 	var scns []fw.Scenario
 	memo := map[string]string{}
@@ -562,23 +563,37 @@ func c10Concurrent(tier string) []fw.Scenario {
 									}
 								}
 								return fw.Instance{Body: body, Outcome: func() string {
-									return im.recs[0].Trace() + "|" + im.recs[1].Trace()
+									var ts []string
+									for _, rc := range im.recs {
+										ts = append(ts, rc.Trace())
+									}
+									return strings.Join(ts, "|")
 								}, Nontrivial: func(r *vrt.Result) bool { return r.Switches > 2 }, Check: func(r *vrt.Result) []fw.Violation {
 									var out []fw.Violation
 									if len(r.Blocked) > 0 {
 										return []fw.Violation{fw.V("concurrent/"+k.name+"/deadlock/"+blockedSummary(r), name+": "+blockedSummary(r))}
 									}
-									traces := [][]h.Ev{im.recs[0].Events(), im.recs[1].Events()}
+									var traces [][]h.Ev
+									for _, rc := range im.recs {
+										traces = append(traces, rc.Events())
+									}
 									for i, t := range traces {
 										if g := h.GrammarError(t); g != "" && !resubscribed(pre, ta, tb, tc, i) {
 											out = append(out, fw.V("concurrent/"+k.name+"/grammar/"+grammarClass(t), name+": observer "+fmt.Sprint(i)+": "+g))
 										}
 									}
 									// all subscribers see the same order
-									if msg := orderDisagreement(traces[0], traces[1]); msg != "" {
-										out = append(out, fw.V("concurrent/"+k.name+"/order-disagreement/values", name+": "+msg))
+									for i := range traces {
+										for j := i + 1; j < len(traces); j++ {
+											if msg := orderDisagreement(traces[i], traces[j]); msg != "" {
+												out = append(out, fw.V("concurrent/"+k.name+"/order-disagreement/values", name+": "+msg))
+											}
+										}
 									}
-									key := k.name + "|" + fmt.Sprint(pre) + "|" + histKey(hist.ops) + "|" + h.Word(traces[0]) + "|" + h.Word(traces[1])
+									key := k.name + "|" + fmt.Sprint(pre) + "|" + histKey(hist.ops)
+									for _, t := range traces {
+										key += "|" + h.Word(t)
+									}
 									msg, ok := memo[key]
 									if !ok {
 										lin, m := linearizable(k, nrec, pre, hist.ops, traces)
